@@ -48,9 +48,11 @@ POSES = [((0.0, 0.0, 0.0), (0.0, 0.0, 0.0)), ((0.3, -0.2, 0.5), (0.4, -0.3, 0.8)
 SEEDF = [(0.3, 1.7, 1e-3, 0.7), (0.37, 1.9, 2e-3, 1.1), (0.23, 1.5, 5e-4, 2.0), (0.41, 2.3, 3e-3, 2.9)]
 # relative tolerance per class (|lib - ref| / |ref|): calibrated on the unchanged tree over all four seeds with margin,
 # never above 1e-3. far-field growth: the library documents cancellation ~ (distance/size)^3 * eps for magnets.
-TOL = {"Cuboid": 1e-9, "Cylinder": 1e-5, "CylinderSegment": 5e-4, "Sphere": 1e-12, "Tetrahedron": 3e-7, "TriangularMesh": 3e-7,
-       "Triangle": 3e-7, "Circle": 1e-10, "Polyline": 1e-9, "Dipole": 1e-11}
-TOL_EXT = 1e-5   # cells next to an edge / segment extension line (documented caveat), relative to the natural field there
+TOL = {"Cuboid": 1e-10, "Cylinder": 1e-5, "CylinderSegment": 5e-4, "Sphere": 1e-12, "Tetrahedron": 1e-7, "TriangularMesh": 1e-7,
+       "Triangle": 1e-7, "Circle": 1e-10, "Polyline": 1e-9, "Dipole": 1e-11}
+# cells next to an edge / segment extension line (documented caveat), relative to the natural field there
+TOL_EXT = 1e-7
+TOL_EXT_CLS = {"Polyline": 1e-5}   # |sin(th1) - sin(th2)| / rho cancels next to the extension line of a segment
 FAR_GROWTH = {"Cuboid": 1e-13, "Cylinder": 1e-13, "CylinderSegment": 1e-13, "Tetrahedron": 1e-12, "TriangularMesh": 1e-12,
               "Triangle": 1e-12}
 
@@ -376,7 +378,7 @@ def evaluate(cls, ri, local, refs, tier, ext=None):
                     is_ext = ext is not None and ext[i]
                     sc = max(np.linalg.norm(ref[i]), (1.0 if is_ext else 1e-3) * nat[i] * (mu0 if field == "B" else 1.0), 1e-300)
                     err = np.linalg.norm(got[i] - ref[i])
-                    tol = min(1e-3, (max(TOL[cls], TOL_EXT) if is_ext else TOL[cls]) + FAR_GROWTH.get(cls, 0.0) * max(dist[i], 1.0) ** 3)
+                    tol = min(1e-3, (max(TOL[cls], TOL_EXT_CLS.get(cls, TOL_EXT)) if is_ext else TOL[cls]) + FAR_GROWTH.get(cls, 0.0) * max(dist[i], 1.0) ** 3)
                     if not np.all(np.isfinite(got[i])):
                         out.append(("nonfinite", f"{got[i].tolist()}", i, ei, pi, field))
                     elif eref[i] > 0.1 * tol * sc:
